@@ -67,7 +67,7 @@ def plan(tier, seed):
         sh += [{'kind': 'soup', 'count': 3000, 'per': 3, 'name': 'soup%d' % k} for k in range(3)]
         sh += [{'kind': 'docs', 'count': 700, 'per': 4, 'depth': 4, 'name': 'docs%d' % k} for k in range(3)]
         return sh
-    sh = [{'kind': 'names', 'k': k, 'n': 16, 'per': 24, 'name': 'names%d' % k} for k in range(16)]
+    sh = [{'kind': 'names', 'k': k, 'n': 32, 'per': 40, 'name': 'names%d' % k} for k in range(32)]
     sh += [{'kind': 'enum', 'L': 5, 'k': k, 'n': 8, 'per': 2, 'name': 'enum%d' % k} for k in range(8)]
     sh += [{'kind': 'soup', 'count': 20000, 'per': 6, 'name': 'soup%d' % k} for k in range(8)]
     sh += [{'kind': 'docs', 'count': 4000, 'per': 8, 'depth': 4 + k % 3, 'name': 'docs%d' % k} for k in range(8)]
